@@ -1,6 +1,7 @@
 package main
 
 import (
+	"runtime/debug"
 	"encoding/json"
 	"flag"
 	"fmt"
@@ -117,6 +118,9 @@ func runOne(chk props.Checker, id string, cfg load.Config, tier string) (res *ch
 	defer func() {
 		if rec := recover(); rec != nil {
 			err = fmt.Errorf("analysis panic: %v", rec)
+			if os.Getenv("TDXLINT_TRACE") != "" {
+				fmt.Fprintf(os.Stderr, "%s\n", debug.Stack())
+			}
 			if os.Getenv("TDXLINT_DEBUG") != "" {
 				panic(rec)
 			}
